@@ -34,7 +34,7 @@ def _is_return_none(s: ast.AST | None) -> bool:
     return isinstance(s, ast.Return) and (s.value is None or (isinstance(s.value, ast.Constant) and s.value.value is None))
 
 
-def _pruned_reach(g: CFG, env: dict[str, Any], start: int, stop: set[int] | None = None, refuse_none: bool = False) -> tuple[set[int], bool]:
+def _pruned_reach(g: CFG, env: dict[str, Any], start: int, stop: set[int] | None = None, refuse_none: bool = False, xf: Any = None) -> tuple[set[int], bool]:
     """Nodes reachable from *start* when edges contradicted by env are removed.
     Second result: whether some env-relevant test could not be decided (DEPENDS on free atoms
     that mention an env key)."""
@@ -48,7 +48,7 @@ def _pruned_reach(g: CFG, env: dict[str, Any], start: int, stop: set[int] | None
             continue  # a refusal: the function gives up here
         for b, lab in g.succ.get(a, []):
             if lab is not None and lab[0] is not None:
-                verdict, _free = fires(lab[0], env)
+                verdict, _free = fires(lab[0] if xf is None else xf(a, lab[0]), env)
                 if verdict == ALWAYS and lab[1] is False:
                     continue
                 if verdict == NEVER and lab[1] is True:
@@ -70,16 +70,85 @@ def _tests_text(fn: ast.AST) -> str:
     return " ; ".join(unparse(n.test) for n in walk_no_nested(fn) if isinstance(n, (ast.If, ast.While, ast.Assert)))
 
 
+_CANON_SPECS: dict[str, Any] | None = None
+
+
+def canon_specs() -> dict[str, Any]:
+    """canonical (rename- and hoist-invariant, see sa/canon.py) forms of the guard tables' condition
+    texts, generated once from the tree the tables were written against (tools/gen_r8_canon.py)"""
+    global _CANON_SPECS
+    if _CANON_SPECS is None:
+        import json
+        import os
+
+        p = os.path.join(os.path.dirname(__file__), "r8_canon.json")
+        _CANON_SPECS = json.load(open(p)) if os.path.exists(p) else {}
+    return _CANON_SPECS
+
+
+def _flow_canon(ctx: Ctx, func: str, g: CFG) -> Any:
+    from ..canon import FlowCanon
+
+    return ctx.memo("flowcanon:" + func, lambda: FlowCanon(g))
+
+
+def _canon_env(sp_id: str, env: dict[str, Any]) -> dict[str, Any] | None:
+    spec = canon_specs().get(sp_id)
+    if spec is None:
+        return None
+    out = dict(env)
+    for raw, alts in spec.get("env", {}).items():
+        if raw in env:
+            for a in alts:
+                out[a] = env[raw]
+    return out
+
+
 def check_guard(ctx: Ctx, sp: Guard) -> Ob:
+    """the guard is looked for under the names the table uses and, failing that, under canonical
+    names (locals replaced by the definitions that reach the condition): a renamed or hoisted local
+    is not a missing guard"""
+    res = _check_guard(ctx, sp, canonical=False)
+    if res.status == "violation":
+        alt = _check_guard(ctx, sp, canonical=True)
+        if alt is not None and alt.status == "ok":
+            return alt
+    return res
+
+
+def _check_guard(ctx: Ctx, sp: Guard, canonical: bool) -> Ob:
     f = ctx.repo.func(sp.func)
     g = ctx.memo("cfg:" + sp.func, lambda: build_cfg(f.node))
     inst = sp.label
+    xf = None
+    env = sp.env
+    loop_texts: list[str] = []
+    if canonical:
+        sp_id = f"{sp.func}::{sp.label}"
+        env_c = _canon_env(sp_id, sp.env)
+        if env_c is None:
+            return None  # type: ignore[return-value]
+        fc = _flow_canon(ctx, sp.func, g)
+        cache: dict[tuple[int, int], ast.AST] = {}
+
+        def xf(a: int, test: ast.AST) -> ast.AST:  # noqa: F811
+            k = (a, id(test))
+            if k not in cache:
+                cache[k] = fc.expr(test, a)
+            return cache[k]
+
+        env = env_c
+        loop_texts = canon_specs()[sp_id].get("loops", [])
     if sp.loop is None:
-        reach, _ = _pruned_reach(g, sp.env, ENTRY, refuse_none=sp.refuse_none)
+        reach, _ = _pruned_reach(g, env, ENTRY, refuse_none=sp.refuse_none, xf=xf)
         escaped = EXIT in reach
         start_desc = "the function"
     else:
-        loops = [n for n, s in g.stmts.items() if isinstance(s, (ast.For, ast.While)) and sp.loop in unparse(s.iter if isinstance(s, ast.For) else s.test)]
+        if canonical:
+            fc = _flow_canon(ctx, sp.func, g)
+            loops = [n for n, s in g.stmts.items() if isinstance(s, (ast.For, ast.While)) and fc.text(s.iter if isinstance(s, ast.For) else s.test, n) in loop_texts]
+        else:
+            loops = [n for n, s in g.stmts.items() if isinstance(s, (ast.For, ast.While)) and sp.loop in unparse(s.iter if isinstance(s, ast.For) else s.test)]
         if not loops:
             return viol("R8", sp.func, inst, f"the per-layer validation loop over `{sp.loop}` no longer exists: {sp.why}", f.loc)
         # several loops may iterate the same collection (e.g. two `for x in node_children`): the
@@ -93,7 +162,7 @@ def check_guard(ctx: Ctx, sp: Guard) -> Ob:
             esc_here = False
             reach_here = set()
             for st in starts:
-                r, _ = _pruned_reach(g, sp.env, st, stop={ln}, refuse_none=sp.refuse_none)
+                r, _ = _pruned_reach(g, env, st, stop={ln}, refuse_none=sp.refuse_none, xf=xf)
                 reach_here |= r
                 # the iteration completes if it gets back to the header or leaves the function normally
                 if ln in r or EXIT in r:
@@ -111,7 +180,7 @@ def check_guard(ctx: Ctx, sp: Guard) -> Ob:
     if not escaped:
         if sp.exc is not None and sp.exc not in raised:
             return viol("R8", sp.func, inst, f"under {_fmt(sp.env)} the function raises {raised}, not the documented {sp.exc}", f.loc)
-        return ok("R8", sp.func, inst, f"under {_fmt(sp.env)} {start_desc} cannot complete normally (raises {raised})", f.loc)
+        return ok("R8", sp.func, inst, f"under {_fmt(sp.env)} {start_desc} cannot complete normally (raises {raised})" + (" [conditions matched under canonical names of the locals]" if canonical else ""), f.loc)
     # escaped: is it because the guard is gone / weakened, or because we cannot read it?
     tests = _tests_text(f.node)
     simple = all(_is_simple(k) for k in sp.env)
@@ -160,6 +229,13 @@ def dominates_call(ctx: Ctx, func: str, guard_env: dict[str, Any], call_name: st
     if not sites:
         return unres("R8", func, label, f"no call of {call_name} found", f.loc)
     hit = [n for n in sites if n in reach]
+    if hit:
+        env_c = _canon_env(f"{func}::{label}", guard_env)
+        if env_c is not None:
+            fc = _flow_canon(ctx, func, g)
+            reach_c, _ = _pruned_reach(g, env_c, ENTRY, xf=lambda a, t: fc.expr(t, a))
+            if not [n for n in sites if n in reach_c]:
+                hit = []
     if hit:
         return viol("R8", func, label, f"under {_fmt(guard_env)} the construction site {call_name}(..) is still reachable ({g.describe(hit[0])}): {why}", f.loc)
     return ok("R8", func, label, f"under {_fmt(guard_env)} {call_name}(..) is unreachable", f.loc)
@@ -239,6 +315,13 @@ def _matcher_guards(func: str, idx: str) -> list[Guard]:
                          why="a pattern entry other than the last with more than one input must not be fused into the match"))
     return out
 
+
+# guard environments used through dominates_call (props C06 / C09, rules/extra.py): canonical forms are generated for them too
+EXTRA_CANON_SPECS = [
+    Guard(FUNC + "evidence", "partial-multivariate", {"isinstance(sl, InputLayer)": True, "sl.scope & scope": True, "sl.scope <= scope": False}),
+    Guard(FUNC + "multiply", "disjoint-different-size", {"sc1.scope != sc2.scope": False, "are_compatible(sc1, sc2)": True, "pair in layers_to_block": False,
+          "sc1.layer_scope(l1) & sc2.layer_scope(l2)": False, "l1.num_output_units != l2.num_output_units": True}),
+]
 
 GUARDS_MATCHERS = _matcher_guards(COMP + "_match_layer_pattern", "lid") + _matcher_guards(COMP + "_match_parameter_nodes_pattern", "nid")
 
